@@ -17,6 +17,8 @@ package jmespath
 // Expressions are Go expressions over the parameters, `result`/`err`, spec
 // functions from verif_spec.go, plus ==> <==> forall/exists old(e) len(e).
 
+//@ define allJSON(s, n) = (forall j int :: 0 <= j && j < n ==> specJSONVal(s[j]))
+
 // ---------------------------------------------------------------------------
 // util.go — slices (C08)
 
@@ -47,7 +49,10 @@ package jmespath
 //@   ensures {C08} [step-zero-is-error] (err != nil) <==> (parts[2].Specified && parts[2].N == 0)
 //@   ensures {C08} [python-slice] err == nil ==> result == specPySlice(slice, parts)
 //@   ensures {C16} [non-nil-result] err == nil ==> !isNil(result)
+//@   ensures {C16} [elements-come-from-input] err == nil && allJSON(slice, len(slice)) ==> allJSON(result, len(result))
 //@   assigns \nothing
+//@   loop 1 invariant [json] allJSON(slice, len(slice)) ==> allJSON(result, len(result))
+//@   loop 2 invariant [json] allJSON(slice, len(slice)) ==> allJSON(result, len(result))
 //@   loop 1 invariant [walk] !isNil(result) && 0 <= i && stop <= len(slice) && step > 0 && specWalkUp(slice, i, stop, step, result) == specWalkUp(slice, start, stop, step, specEmptyList())
 //@   loop 1 decreases stop - i
 //@   loop 2 invariant [walk] !isNil(result) && i <= len(slice)-1 && -1 <= stop && step < 0 && specWalkDown(slice, i, stop, step, result) == specWalkDown(slice, start, stop, step, specEmptyList())
@@ -364,3 +369,88 @@ package jmespath
 //@   ensures [cursor] err == nil ==> PI(p) && p.index >= old(p.index)
 //@   ensures {C04} [never-an-empty-node] err == nil ==> result.nodeType != ASTEmpty
 //@   ensures {C17} [error-location] parseErrOK(p, err)
+
+//@ func (*Parser).Parse
+//@   props C05
+//@   assigns Parser.expression, Parser.index, Parser.tokens
+//@   ensures {C04} [never-an-empty-node] err == nil ==> result.nodeType != ASTEmpty
+//@   ensures {C17} [error-location] isSyntaxError(err) ==> err.Expression == expression && 0 <= err.Offset && err.Offset <= len(expression)
+
+// ---------------------------------------------------------------------------
+// api.go (C17)
+
+//@ func SyntaxError.HighlightLocation
+//@   props C05,C17
+//@   requires 0 <= e.Offset
+//@   ensures {C17} [caret-line] same(result, e.Expression + "\n" + specSpaces(e.Offset) + "^")
+//@   assigns \nothing
+
+//@ func Compile
+//@   props C05,C17
+//@   ensures {C17} [either-value-or-error] (err == nil && result != nil) || (err != nil && result == nil)
+//@   ensures {C17} [error-location] isSyntaxError(err) ==> err.Expression == expression && 0 <= err.Offset && err.Offset <= len(expression)
+//@   ensures {C04} [never-an-empty-node] err == nil ==> result.ast.nodeType != ASTEmpty
+//@   ensures {C12,C13} [fresh-interpreter] err == nil ==> result.intr != nil
+//@   assigns \nothing
+//@   fresh
+
+// ---------------------------------------------------------------------------
+// interpreter.go — Execute on JSON data (C05 C11 C16 C06 C12 C13; functional clauses are added per node type)
+
+
+//@ func (*functionCaller).CallFunction
+//@   trusted function library: contract assumed until the handlers are under contract (listed in evidence)
+//@   requires forall j int :: 0 <= j && j < len(arguments) ==> specArgOK(arguments[j])
+//@   assigns \nothing
+//@   decreases 0
+//@   ensures {C16} err == nil ==> specJSONVal(result)
+
+//@ func (*treeInterpreter).fieldFromStruct
+//@   props C05
+//@   requires specJSONVal(value)
+//@   assigns \nothing
+//@   ensures {C01} [json-has-no-struct-fields] result == nil && err == nil
+
+//@ func (*treeInterpreter).filterProjectionWithReflection
+//@   skip typed-slice twin (C18); unreachable for JSON documents
+//@   requires kindOf(value) == 23 && !isArr(value)
+//@   assigns \nothing
+//@ func (*treeInterpreter).projectWithReflection
+//@   skip typed-slice twin (C18); unreachable for JSON documents
+//@   requires kindOf(value) == 23 && !isArr(value)
+//@   assigns \nothing
+//@ func (*treeInterpreter).flattenWithReflection
+//@   skip typed-slice twin (C18); unreachable for JSON documents
+//@   requires kindOf(value) == 23 && !isArr(value)
+//@   assigns \nothing
+//@ func (*treeInterpreter).sliceWithReflection
+//@   skip typed-slice twin (C18); unreachable for JSON documents
+//@   requires kindOf(value) == 23 && !isArr(value)
+//@   assigns \nothing
+
+//@ func (*treeInterpreter).Execute
+//@   props C05
+//@   requires wfArg(node) && specJSONVal(value) && intr.fCall != nil
+//@   assigns \nothing
+//@   decreases nodeRank(node) + 1
+//@   ensures {C16} [json-result] err == nil ==> specResultOK(node, result)
+//@   loop 1 invariant [args] !isNil(resolvedArgs) && len(resolvedArgs) == \k && (forall j int :: 0 <= j && j < len(resolvedArgs) ==> specArgOK(resolvedArgs[j]))
+//@   loop 1 decreases len(node.children) - \k
+//@   loop 2 invariant [filter] !isNil(collected) && allJSON(collected, len(collected))
+//@   loop 2 decreases arrLen(left) - \k
+//@   loop 3 invariant [flatten] !isNil(flattened) && allJSON(flattened, len(flattened))
+//@   loop 3 decreases arrLen(left) - \k
+//@   loop 5 invariant [hash] !isNil(collected) && 0 <= len(collected) && (forall k string :: mapHas(collected, k) ==> specJSONVal(collected[k]))
+//@   loop 5 decreases len(node.children) - \k
+//@   loop 6 invariant [list] !isNil(collected) && allJSON(collected, len(collected))
+//@   loop 6 decreases len(node.children) - \k
+//@   loop 7 invariant [pipe] specJSONVal(result)
+//@   loop 7 decreases len(node.children) - \k
+//@   loop 8 invariant [projection] !isNil(collected) && allJSON(collected, len(collected))
+//@   loop 8 decreases arrLen(left) - \k
+//@   loop 9 invariant [slice-params] 0 <= \k && \k <= 3
+//@   loop 9 decreases 3 - \k
+//@   loop 10 invariant [values] !isNil(values) && allJSON(values, len(values))
+//@   loop 10 decreases objSize(left) - \k
+//@   loop 11 invariant [value-projection] !isNil(collected) && allJSON(collected, len(collected))
+//@   loop 11 decreases len(values) - \k
